@@ -120,6 +120,18 @@ Example C36_nonvacuous :
     = [Some (VTime 1600000000 999999); Some (VTime 1600000001 1)].
 Proof. exact (conj nv_upgrades (conj nv_typed nv_facts)). Qed.
 
+(** 2.3 database whose job trees are only PARTLY labelled (root labelled / child not / grandchild
+    labelled / ..., and a tree without execution): every job ends with the execution of its root
+    ancestor and no job row is lost -- as shipped and as repaired. *)
+Example C36_partial_labels_example : forall v,
+  d_rev (pl_db v) = "d4af139b6f53" /\
+  job_eids (upgrade env0 (chain v) db_versions (pl_db v)) =
+    [(Some (VText "j0"), Some (VText "e0")); (Some (VText "j1"), Some (VText "e0"));
+     (Some (VText "j2"), Some (VText "e0")); (Some (VText "j3"), Some (VText "e0"));
+     (Some (VText "k0"), Some (VFresh "stub" (VText "k0"))); (Some (VText "k1"), Some (VFresh "stub" (VText "k0")))].
+Proof. exact pl_facts. Qed.
+
+Print Assumptions C36_partial_labels_example.
 Print Assumptions C36_any_known_ops_preserve.
 Print Assumptions C36_upgrade_keeps_rows.
 Print Assumptions C36_other_columns_equal_partial.
